@@ -109,6 +109,10 @@ type SweepCase struct {
 	Decoys    bool `json:"decoys"`
 	Full      bool `json:"full"` // whole 4^5 product of the method-level parameters (thorough tier)
 	Part      int  `json:"part"` // -1 = everything; otherwise only chunk Part (for replays)
+	// widening w4
+	Shapes          bool `json:"shapes,omitempty"`          // boundary classes with wrapped / annotated parameter lists and look-alike method names
+	Varargs         bool `json:"varargs,omitempty"`         // ... and with a variable-arity last parameter
+	InterfaceBodies bool `json:"interfaceBodies,omitempty"` // ... and default methods of interfaces
 }
 
 // ---------------------------------------------------------------------------------------
@@ -1493,6 +1497,22 @@ func sweepMethod(name string, l, p, i, s, h int, sc SweepCase, withDecoys bool) 
 	return m
 }
 
+// padTo puts filler into the middle of the body so that the closing brace lies l lines below
+// the line the declaration starts on.
+func padTo(m Method, l int) Method {
+	span := spanOf(m)
+	if span > l {
+		panic(fmt.Sprintf("GENERATOR BUG: method %s spans %d lines, more than the wanted %d", m.Name, span, l))
+	}
+	if span < l {
+		mid := len(m.Body) / 2
+		body := append([]Stmt(nil), m.Body[:mid]...)
+		body = append(body, Stmt{Kind: "fill", N: l - span})
+		m.Body = append(body, m.Body[mid:]...)
+	}
+	return m
+}
+
 func bodyLines(m Method) int {
 	w := &jw{next: 1, unit: " "}
 	t := methodTruth{}
@@ -1580,6 +1600,86 @@ func sweepFiles(sc SweepCase) []File {
 		f.Methods = []Method{{Kind: "abstract", Name: "call", Params: p}, {Kind: "abstract", Name: "other", Params: 1, Ret: "int"}}
 		files = append(files, f)
 	}
+	if !sc.Shapes {
+		return files
+	}
+	// parameter lists over several lines, annotated / nested-generic parameter types and a
+	// variable-arity last parameter, at the boundaries of P and L
+	for _, p := range []int{4, 5, 6, 7} {
+		for _, va := range []bool{false, true} {
+			if va && !sc.Varargs {
+				continue
+			}
+			for wrap := 0; wrap <= 2; wrap++ {
+				for _, l := range []int{30, 31} {
+					f := mk(fmt.Sprintf("W%dx%vx%dx%d", p, va, wrap, l))
+					f.Dir = "w"
+					f.CRLF = (p+l)%2 == 0
+					m := Method{Kind: "normal", Name: "run", Mods: "public", Params: p, Varargs: va, WrapParams: wrap, RichParams: wrap == 1,
+						BraceNext: sc.BraceNext, Throws: wrap == 2}
+					for k := 0; k < 3; k++ {
+						m.Body = append(m.Body, Stmt{Kind: "if", H: 1, Compact: true})
+					}
+					f.Methods = []Method{padTo(m, l)}
+					files = append(files, f)
+				}
+			}
+			f := mk(fmt.Sprintf("J%dx%v", p, va))
+			f.Dir = "w"
+			f.Interface = true
+			f.Methods = []Method{{Kind: "abstract", Name: "call", Params: p, Varargs: va, WrapParams: p % 3, RichParams: p%2 == 0}}
+			files = append(files, f)
+		}
+	}
+	// default methods of interfaces at the boundaries of L, I and H
+	if sc.InterfaceBodies {
+		for _, l := range []int{30, 31} {
+			for _, i := range []int{7, 8} {
+				for _, h := range []int{3, 4} {
+					f := mk(fmt.Sprintf("D%dx%dx%d", l, i, h))
+					f.Dir = "w"
+					f.Interface = true
+					m := Method{Kind: "default", Name: "run", Mods: "default", Params: 1}
+					for k := 0; k < i; k++ {
+						st := Stmt{Kind: "if", H: 1, Compact: true}
+						if k == 0 {
+							st = Stmt{Kind: "if", H: h, CloseOwn: sc.CloseOwn, Compact: true}
+						}
+						m.Body = append(m.Body, st)
+					}
+					f.Methods = []Method{padTo(m, l), {Kind: "abstract", Name: "other", Params: 1, Ret: "int"}}
+					files = append(files, f)
+				}
+			}
+		}
+	}
+	// ordinary methods whose names contain get / set, and the usual companions of getters and
+	// setters, at the boundaries of M and of the data-class rule
+	tricky := []string{"reset", "forget", "target", "offset", "toString", "hashCode", "budget", "asset"}
+	for _, n := range []int{19, 20} {
+		for _, g := range []int{0, 2} {
+			f := mk(fmt.Sprintf("N%dx%d", n, g))
+			f.Dir = "w"
+			for k := 0; k < n; k++ {
+				name := tricky[k%len(tricky)]
+				if k >= len(tricky) {
+					name = fmt.Sprintf("%s%d", name, k)
+				}
+				f.Methods = append(f.Methods, trivialMethod("normal", name))
+			}
+			for k := 0; k < g; k++ {
+				f.Methods = append(f.Methods, trivialMethod([]string{"getter", "setter"}[k%2], fmt.Sprintf("prop%d", k)))
+			}
+			files = append(files, f)
+		}
+	}
+	for k, name := range tricky {
+		// two accessors and one method that is none: no data class
+		f := mk(fmt.Sprintf("NotData%d", k))
+		f.Dir = "w"
+		f.Methods = []Method{trivialMethod("getter", "prop"), trivialMethod("normal", name), trivialMethod("setter", "prop")}
+		files = append(files, f)
+	}
 	return files
 }
 
@@ -1637,8 +1737,8 @@ var (
 	// getters and setters in a value class
 	methodNames = []string{"process", "generate", "load", "send", "update", "build", "select", "handle", "apply", "gather", "merge", "serve",
 		"reset", "forget", "target", "offset", "toString", "hashCode"}
-	dirs = []string{"", "", "core/model", "src/main/java/com/acme", "app", "com/acme/testing", "latest"}
-	modsPool    = []string{"public", "public", "private", "protected", "", "public static", "public final", "public synchronized", "static",
+	dirs     = []string{"", "", "core/model", "src/main/java/com/acme", "app", "com/acme/testing", "latest"}
+	modsPool = []string{"public", "public", "private", "protected", "", "public static", "public final", "public synchronized", "static",
 		"@Override public", "@Deprecated protected", "public <T>", "private static <K, V>"}
 	retPool = []string{"", "", "int", "String", "boolean", "List<String>", "int[]"}
 )
@@ -2053,12 +2153,15 @@ func genSortCase(t *rapid.T) Case {
 
 func genSweep(t *rapid.T) SweepCase {
 	return SweepCase{
-		Indent:    rapid.IntRange(0, 2).Draw(t, "indent"),
-		BraceNext: rapid.Bool().Draw(t, "braceNext"),
-		CloseOwn:  rapid.Bool().Draw(t, "closeOwn"),
-		Decoys:    rapid.IntRange(0, 3).Draw(t, "decoys") > 0,
-		Full:      pbt.Tier() == "thorough",
-		Part:      -1,
+		Indent:          rapid.IntRange(0, 2).Draw(t, "indent"),
+		BraceNext:       rapid.Bool().Draw(t, "braceNext"),
+		CloseOwn:        rapid.Bool().Draw(t, "closeOwn"),
+		Decoys:          rapid.IntRange(0, 3).Draw(t, "decoys") > 0,
+		Full:            pbt.Tier() == "thorough",
+		Part:            -1,
+		Shapes:          true,
+		Varargs:         !pbt.Excluded(varargsFeature),
+		InterfaceBodies: !pbt.Excluded(interfaceBodyFeature),
 	}
 }
 
